@@ -13,6 +13,7 @@
   DER mode.
 -/
 import Rpki.Model.Der
+import Rpki.Model.Skip
 import Rpki.Model.X509
 import Rpki.Model.Manifest
 import Rpki.Model.AsDer
@@ -24,83 +25,6 @@ import Rpki.Model.SigObj
 import Rpki.Gen.Consts
 namespace Rpki.CertDer
 open Rpki.Der Rpki.Chain Rpki.Consts
-
-/-! ## bcder `Constructed::skip_opt` (DER mode, inside a value of definite length) -/
-
-/-- up to `n` continuation octets of a multi-octet tag (`Tag::take_opt_from`) -/
-def tagCont : Nat → Bytes → Option Bytes
-  | 0, _ => none
-  | _ + 1, [] => none
-  | n + 1, x :: r => if x < 128 then some r else tagCont n r
-
-/-- identifier octets: the first octet and what follows the whole tag -/
-def takeTagAny (b : Bytes) : Option (Nat × Bytes) :=
-  match b with
-  | [] => none
-  | t :: r => if t % 32 = 31 then (tagCont 3 r).map (t, ·) else some (t, r)
-
-inductive Len | definite (n : Nat) | indefinite
-deriving DecidableEq, Repr
-
-/-- `Length::take_from`: the indefinite form is a value of its own; `skip_opt` does not ask for the mode -/
-def readLenX (b : Bytes) : Option (Len × Bytes) :=
-  match b with
-  | 0x80 :: r => some (.indefinite, r)
-  | _ => (readLen b).map fun (n, r) => (.definite n, r)
-
-/-- one level of the explicit stack of `skip_opt`: what follows a definite-length value inside the
-enclosing limit, or an indefinite-length value waiting for its end-of-contents -/
-inductive Frame | definite (after : Bytes) | indefinite
-deriving Repr
-
-inductive Post | done (rest : Bytes) | more (cur : Bytes) (st : List Frame) | fail
-
-/-- the inner `loop` of `skip_opt`: close every value whose limit has reached zero -/
-def post : Bytes → List Frame → Post
-  | cur, [] => .done cur
-  | [], .definite after :: st => post after st
-  | [], .indefinite :: _ => .fail
-  | c :: cur, f :: st => .more (c :: cur) (f :: st)
-
-/-- the outer `loop` of `skip_opt`; `cur` = the octets inside the current limit -/
-def skipLoop : Nat → Bytes → List Frame → Option Bytes
-  | 0, _, _ => none
-  | fuel + 1, cur, st =>
-    match takeTagAny cur with
-    | none => none
-    | some (t, r) =>
-      match readLenX r with
-      | none => none
-      | some (len, r') =>
-        let next (c : Bytes) (s : List Frame) : Option Bytes :=
-          match post c s with
-          | .done rest => some rest
-          | .more c' s' => skipLoop fuel c' s'
-          | .fail => none
-        if !isCons t then
-          if t = 0 then
-            match len, st with
-            | .definite 0, .indefinite :: st' => next r' st'
-            | _, _ => none
-          else
-            match len with
-            | .definite n => if r'.length < n then none else next (r'.drop n) st
-            | .indefinite => none
-        else
-          match len with
-          | .definite n => if r'.length < n then none else next (r'.take n) (.definite (r'.drop n) :: st)
-          | .indefinite => skipLoop fuel r' (.indefinite :: st)
-
-/-- `skip_one` on non-empty content: the octets after the first value -/
-def skipOne (b : Bytes) : Option Bytes := skipLoop (b.length + 1) b []
-
-/-- `skip_all` -/
-def skipAll : Nat → Bytes → Bool
-  | 0, b => b = []
-  | fuel + 1, b => if b = [] then true else
-    match skipOne b with
-    | none => false
-    | some rest => skipAll fuel rest
 
 /-! ## generic loops over the values of a constructed content -/
 
